@@ -675,6 +675,19 @@ def parseBaseTypeF : P Ty := fun i => (knotF (i.length + 1)).bt i
 /-- the patched `function_input_type(input)` -/
 def parseFunctionIoTypeF : P Ty := fun i => functionIoTypeF (knotF (i.length + 1)) i
 
+/-- `inline_type_expression` (a type in pattern position: `=T`, `(T)x`): a parenthesised type
+    (with `wsc`, unlike the grouping of `base_type`), a module type, a type name, `'`, or a partial
+    type (the unchanged `partial_type`) -/
+def inlineTypeExpression (k : Knot) : P Ty :=
+  alt (delimited (seq (pchar '(') wsc) k.td (seq wsc (pchar ')')))
+  (alt (moduleType k)
+  (alt (typeIdentifier k)
+  (alt (selfDefaultType k)
+       (partialType k))))
+
+/-- `inline_type_expression(input)` -/
+def parseInlineTypeF : P Ty := fun i => inlineTypeExpression (knotF (i.length + 1)) i
+
 /-- `type_alias` (over the patched `type_definition`, which is the same function:
     `partial_or_group_factored_eq`) -/
 def typeAlias : P Alias :=
